@@ -69,6 +69,8 @@ def py_import_errclass(err: str) -> str:
         return ":ndarray-of-fixed-vector-annotation"
     if re.search(r"cannot import name '\w+Or\w+' from '[\w.]+\.types'", err):
         return ":missing-union-class"
+    if re.search(r"NameError: name '\w+_NP' is not defined|name '\w+_NP' is not defined", err):
+        return ":np-typevar-in-dtype-map"
     return ""
 
 
